@@ -25,7 +25,8 @@ THEOREMS = [f'Gnpy.Select.{t}' for t in (
     'selected_mem_permitted', 'selected_in_restrictions', 'selected_covers_band', 'raman_only_if_allowed', 'ramanAllowed_spec',
     'capable_if_any_capable', 'nf_minimal_among_acceptable', 'nf_minimal_among_capable', 'fallback_spec',
     'reduction_spec', 'reduction_zero_if_capable', 'select_none_iff', 'argminNf_first',
-    'preselect_sound', 'preselect_sound_partial', 'preselect_old_leaves_permitted_set')]
+    'preselect_sound', 'preselect_sound_partial', 'preselect_old_leaves_permitted_set', 'gain_fallback_spec',
+    'mem_selectionLibrary', 'nodeRestrictionsMulti_permitted', 'auto_selection_main')]
 PARTIAL = ['preselect_sound_partial (multiband): proved: preselection never leaves the permitted multiband entries '
            '(preselect_sound, repaired behaviour of fix F10) and every entry surviving a band lists a model the '
            'filter accepted for that band. Not modelled, only monitored on designed topologies: the final per-band '
